@@ -161,6 +161,13 @@ def run_data_case(ctx, fe, verdict, L, t_data, lat, await_at=0, implicit=False, 
                 # the validator in force is the application-wide one: the Interest names none of its own
                 the_app.data_validator = the_validator
                 obs['app-wide'] = True
+                if CT_SEQ[0] % 2 == 0:
+                    # the application set its validator, lost its connection and connected again (same object): its policy is still its policy
+                    the_app.shutdown()
+                    await asyncio.wait_for(main_task, 5)
+                    main_task = asyncio.ensure_future(the_app.main_loop())
+                    await asyncio.sleep(0)
+                    obs['reconnected'] = True
                 coro = the_app.express_interest(iname, lifetime=L, nonce=1, need_raw_packet=(CT_SEQ[0] % 3 == 0))
             else:
                 coro = the_app.express_interest(iname, validator=the_validator, lifetime=L, nonce=1,
@@ -199,6 +206,9 @@ def run_data_case(ctx, fe, verdict, L, t_data, lat, await_at=0, implicit=False, 
         ctx.event('data-fetched-by-full-name')
     if falsy_obj:
         ctx.event('validator-is-a-falsy-callable-object')
+    if obs.get('reconnected'):
+        ctx.event('application-wide-validator-set-before-a-reconnect')
+        w['reconnected_after_setting_the_validator'] = True
     if obs.get('app-wide'):
         ctx.event('validator-is-the-application-wide-one')
         w['validator_set_as'] = 'app.data_validator'
@@ -849,6 +859,7 @@ def run(ctx):
     ctx.rule = RULE
     check_plain_after_detach(ctx, ctx.rng)
     ctx.need_event('plain-interest-after-a-longer-prefix-was-detached')
+    ctx.need_event('application-wide-validator-set-before-a-reconnect')
     rng = ctx.rng
     check_data_side(ctx, rng)
     check_data_multi(ctx, rng)
